@@ -8,6 +8,13 @@
 // SeqNumberAttr, random-duration handler, recording sink (dumps every accessor, the delivering thread, takes a ticket).
 // Tickets (one global atomic): C before the call, P at hook "own.locked" (M held: the post happens in this critical
 // section), R at hook "own.posted", T after the call returned, D inside the sink.
+// Further modes.  "relog": logger mode in which the sink, while delivering the marker message (producer 0, index 1) and after
+//   every producer has posted everything, itself logs one message through the installed Logger from the logger thread
+//   (pseudo-producer <n>, index 0): it must be queued behind everything posted before and must not run the pipeline nested
+//   (header: max_nesting).  "drain": bare handler, sink 100 ms per message, producer 0 queues <per> messages, a stopper thread
+//   calls resetOwnThread(), 200 ms later producer 1 logs one message: that call must return at once (maxcall_us) and the
+//   message must still be delivered by the logger thread.  Header: quotas=<per-producer message counts>.
+// Texts: every 9th message carries a leading / embedded / trailing U+0000.  line = index * 64 + producer.
 // input line:  <mode> <producers> <messages each> <seed> <perturb 0..3> <sinkdelay 0..2> [<stall ms>]
 //   stall: the sink sleeps that long once, inside its first delivery (a stalled sink); the header reports the longest
 //   logging call (maxcall_us) so that a call blocking on the sink is visible
@@ -24,6 +31,7 @@
 #include <atomic>
 #include <chrono>
 #include <cstring>
+#include <functional>
 #include <iostream>
 #include <mutex>
 #include <random>
@@ -36,7 +44,12 @@ using namespace QtLogger;
 struct Ev { char kind; int prod, idx; };
 static std::vector<Ev> g_events;
 static std::atomic<long> g_ticket{0};
-static int g_perturb = 1, g_sinkdelay = 0, g_stall_ms = 0;
+static int g_perturb = 1, g_sinkdelay = 0, g_stall_ms = 0, g_slow_ms = 0;
+static std::atomic<bool> g_all_posted{false};
+static std::atomic<bool> g_relogged{false};
+static std::function<void()> g_relog;
+static std::atomic<int> g_max_nesting{0};
+thread_local int tl_depth = 0;
 static std::atomic<bool> g_stalled{false};
 static std::atomic<long> g_maxcall_us{0};
 thread_local int tl_prod = -1;
@@ -114,11 +127,21 @@ struct RecSink : Sink {
     void send(const LogMessage &m) override
     {
         int p = -1, i = -1;
-        sscanf(m.message().toUtf8().constData(), "%d %d", &p, &i);
+        QString t = m.message(); t.remove(QChar(0));
+        if (sscanf(t.toUtf8().constData(), "%d %d", &p, &i) != 2) { p = m.line() % 64; i = m.line() / 64; }   // text lost: identify by line
+        if (++tl_depth > g_max_nesting.load()) g_max_nesting = tl_depth;
         record('D', p, i);
         if (g_stall_ms > 0 && !g_stalled.exchange(true)) usleep(g_stall_ms * 1000);
-        std::lock_guard<std::mutex> l(g_async_mx);
-        g_async.push_back(Rec { (int)g_async.size(), p, i, QThread::currentThread() == g_worker_thread ? 1 : 0, dump(m) });
+        if (g_slow_ms > 0) usleep(g_slow_ms * 1000);
+        {
+            std::lock_guard<std::mutex> l(g_async_mx);
+            g_async.push_back(Rec { (int)g_async.size(), p, i, QThread::currentThread() == g_worker_thread ? 1 : 0, dump(m) });
+        }
+        if (g_relog && p == 0 && i == 1 && !g_relogged.exchange(true)) {
+            for (int k = 0; k < 3000 && !g_all_posted.load(); k++) usleep(1000);      // everything else is queued behind us now
+            g_relog();
+        }
+        --tl_depth;
     }
 };
 template <class P> static void build(P &pl)
@@ -141,13 +164,14 @@ int main(int argc, char **argv)
     while (std::getline(std::cin, line)) {
         std::istringstream is(line);
         std::string mode; int n = 2, per = 10; unsigned seed = 1;
-        g_stall_ms = 0; g_stalled = false; g_maxcall_us = 0;
+        g_stall_ms = 0; g_stalled = false; g_maxcall_us = 0; g_slow_ms = 0; g_all_posted = false; g_relogged = false; g_relog = nullptr; g_max_nesting = 0;
         is >> mode >> n >> per >> seed >> g_perturb >> g_sinkdelay >> g_stall_ms;
         if (mode.empty()) continue;
-        g_events.assign((size_t)n * per * 6 + 16, Ev { '?', 0, 0 });
+        g_events.assign((size_t)n * per * 6 + 64, Ev { '?', 0, 0 });
         g_ticket = 0;
         g_async.clear(); g_flushes.clear();
-        std::vector<std::vector<std::string>> twin(n);
+        std::vector<std::vector<std::string>> twin(n + 1);
+        std::vector<int> quotas(n, per);
         std::atomic<int> ready{0};
         auto producer = [&](int p, std::function<void(int, int, std::string &)> send_one) {
             tl_rng.seed(seed * 7919u + p * 104729u + 17);
@@ -170,17 +194,19 @@ int main(int argc, char **argv)
             f = (i % 5 == 0) ? nullptr : heapstr("/src/dir" + std::to_string(p) + "/file" + std::to_string(i % 3) + ".cpp");
             fn = (i % 5 == 0) ? nullptr : heapstr("void Cls" + std::to_string(p) + "::fn" + std::to_string(i) + "(int, const QString &)");
             c = (i % 7 == 3) ? nullptr : heapstr("cat." + std::to_string(i % 4));
-            ln = i * 3 + p; ty = TYPES[(i + p) % 5];
+            ln = i * 64 + p; ty = TYPES[(i + p) % 5];
             text = QString::number(p) + QLatin1Char(' ') + QString::number(i) + QStringLiteral(" payload é中 ") + QString(i % 11, QLatin1Char('z'));
+            if (i % 9 == 2) text.prepend(QChar(0));                       // NUL characters are part of the text
+            else if (i % 9 == 4) text.insert(text.size() / 2, QChar(0));
+            else if (i % 9 == 6) text.append(QChar(0));
         };
         std::vector<std::thread> ths;
-        if (mode == "bare") {
+        if (mode == "bare" || mode == "drain") {
             OwnThreadHandler<SimplePipeline> h;
             build(h);
             h.moveToOwnThread();
             g_worker_thread = h.ownThread();
-            for (int p = 0; p < n; p++)
-                ths.emplace_back(producer, p, [&](int p, int i, std::string &tw) {
+            auto bare_send = [&](int p, int i, std::string &tw) {
                     char *f, *fn, *c; int ln; QtMsgType ty; QString text;
                     fields(p, i, f, fn, c, ln, ty, text);
                     {
@@ -194,8 +220,27 @@ int main(int argc, char **argv)
                         record('T', p, i);
                     }
                     scrub(f); scrub(fn); scrub(c);
+                };
+            if (mode == "drain") {
+                n = 2; quotas = { per, 1 };
+                g_slow_ms = 100;
+                tl_prod = 0;
+                for (int i = 0; i < per; i++) { std::string tw; tl_idx = i; bare_send(0, i, tw); twin[0].push_back(tw); }
+                tl_prod = -1;
+                std::thread stopper([&] { h.resetOwnThread(); });
+                std::thread late([&] {
+                    usleep(200 * 1000);
+                    std::string tw; tl_prod = 1; tl_idx = 0;
+                    auto c0 = std::chrono::steady_clock::now();
+                    bare_send(1, 0, tw);
+                    g_maxcall_us = std::chrono::duration_cast<std::chrono::microseconds>(std::chrono::steady_clock::now() - c0).count();
+                    tl_prod = -1; twin[1].push_back(tw);
                 });
-            for (auto &t : ths) t.join();
+                late.join(); stopper.join();
+            } else {
+                for (int p = 0; p < n; p++) ths.emplace_back(producer, p, bare_send);
+                for (auto &t : ths) t.join();
+            }
             h.resetOwnThread();
         } else {
             Logger lg;
@@ -203,11 +248,24 @@ int main(int argc, char **argv)
             lg.moveToOwnThread();
             g_worker_thread = lg.ownThread();
             lg.installMessageHandler();
-            for (int p = 0; p < n; p++)
-                ths.emplace_back(producer, p, [&](int p, int i, std::string &tw) {
+            auto logger_send = [&](int p, int i, std::string &tw) {
                     char *f, *fn, *c; int ln; QtMsgType ty; QString text;
                     fields(p, i, f, fn, c, ln, ty, text);
                     if (!c) c = heapstr("default");       // QMessageLogger needs a category name
+                    if (text.contains(QChar(0)) && ty != QtFatalMsg) {      // printf-style macros cannot carry U+0000: documented entry point
+                        QByteArray u = text.toUtf8(); std::ostringstream o;
+                        qint64 t0 = QDateTime::currentMSecsSinceEpoch();
+                        record('C', p, i);
+                        { QMessageLogContext ctx(f, ln, fn, c); lg.processMessage(ty, ctx, text); }
+                        record('T', p, i);
+                        qint64 t1 = QDateTime::currentMSecsSinceEpoch();
+                        o << (int)ty << "|h" << hex(u) << "|" << cs(f) << "|" << ln << "|" << cs(fn) << "|" << cs(c) << "|" << t0 << ".." << t1
+                          << "~" << (int)Qt::LocalTime << "~" << QDateTime::fromMSecsSinceEpoch(t0).offsetFromUtc() << "~*"
+                          << "|*|" << (quint64) reinterpret_cast<quintptr>(QThread::currentThreadId()) << "|-||-";
+                        tw = o.str();
+                        scrub(f); scrub(fn); scrub(c);
+                        return;
+                    }
                     QByteArray u = text.toUtf8();
                     std::ostringstream o;
                     qint64 t0 = QDateTime::currentMSecsSinceEpoch();
@@ -230,18 +288,31 @@ int main(int argc, char **argv)
                       << "|*|" << (quint64) reinterpret_cast<quintptr>(QThread::currentThreadId()) << "|-||-";
                     tw = o.str();
                     scrub(f); scrub(fn); scrub(c);
-                });
+                };
+            if (mode == "relog") {
+                quotas.push_back(1);
+                g_relog = [&] {       // runs on the logger thread, inside the sink
+                    std::string tw; tl_prod = n; tl_idx = 0;
+                    logger_send(n, 0, tw);
+                    tl_prod = -1; twin[n].push_back(tw);
+                };
+            }
+            for (int p = 0; p < n; p++) ths.emplace_back(producer, p, logger_send);
             for (auto &t : ths) t.join();
+            g_all_posted = true;
             lg.resetOwnThread();
+            g_relog = nullptr;
             Logger::restorePreviousMessageHandler();
         }
         long cnt = std::min<long>(g_ticket.load(), (long)g_events.size());
         std::ostringstream o;
         o << "RUN " << mode << " " << n << " " << per << " " << seed << " " << g_perturb << " " << g_sinkdelay << " events=" << g_ticket.load()
-          << (g_ticket.load() > (long)g_events.size() ? " OVERFLOW" : "") << " stall_ms=" << g_stall_ms << " maxcall_us=" << g_maxcall_us.load() << "\nEV ";
+          << (g_ticket.load() > (long)g_events.size() ? " OVERFLOW" : "") << " stall_ms=" << g_stall_ms << " maxcall_us=" << g_maxcall_us.load() << " max_nesting=" << g_max_nesting.load() << " quotas=";
+        for (size_t k = 0; k < quotas.size(); k++) o << (k ? "," : "") << quotas[k];
+        o << "\nEV ";
         for (long k = 0; k < cnt; k++) o << g_events[k].kind << "." << g_events[k].prod << "." << g_events[k].idx << " ";
         o << "\n";
-        for (int p = 0; p < n; p++)
+ for (int p = 0; p < (int)twin.size(); p++)
             for (size_t i = 0; i < twin[p].size(); i++) o << "TW " << p << " " << i << " " << twin[p][i] << "\n";
         for (auto &r : g_async) o << "AS " << r.k << " " << r.p << " " << r.i << " " << r.onworker << " " << r.d << "\n";
         for (auto &f : g_flushes) o << "FL " << f.p << " " << f.i << " " << f.onworker << "\n";
